@@ -190,10 +190,17 @@ def generate(rng, tier):
     # wrong-type response consuming a live request
     for _ in range(40 if thorough else 12):
         yield from history(rng, 'wrongtype', rand_msgs(rng, 2), wrongtype=True)
+    # session level: the real ESME.start() with a scripted SMSC, suspending hooks, back-pressure, dropped connections
+    # (no model line; judged by the ledger predicate: exactly one outcome per queued message, every response attributed)
+    from corr import c01s
+    yield from c01s.generate(rng, 400 if thorough else 100)
 
 
 def replay(inp):
     import random
+    if inp.get('op') == 'session':
+        from corr import c01s
+        return c01s.case_of(dict(inp['sc']))
     msgs = [dict(m) for m in inp['msgs']]
     cases = history(random.Random(1), inp['label'], msgs, reuse=inp.get('reuse', False),
                     wrongtype=inp.get('wrongtype', False), jumps=inp.get('jumps', False))
@@ -205,6 +212,8 @@ def replay(inp):
 
 def classify(case):
     inp = case.inp if isinstance(case.inp, dict) else {}
+    if inp.get('op') == 'session':
+        return inp.get('kind')
     if inp.get('reuse'):
         return 'segment-reference-reuse'
     if inp.get('wrongtype'):
